@@ -189,7 +189,7 @@ package remote
 //@   call filterReferrers requires [C14,C15:filter-iff-not-applied] artifactType != "" && !isFilterApplied(headerGet(resp.Header, headerOCIFiltersApplied), "artifactType") && !isFilterApplied(lookup(index.Annotations, spec.AnnotationReferrersFiltersApplied), "artifactType")
 //@   entry set pageDecoded = false
 //@   call Decode set pageDecoded = result == nil
-//@   ensures [C15:decoded-page-continues-by-link-header] pageDecoded && (refFnCalls == 0 || refFnErr == nil) ==> plCalls == 1 && result1 == plErr && result0 == plURL
+//@   ensures [C03,C15:decoded-page-continues-by-link-header] pageDecoded && (refFnCalls == 0 || refFnErr == nil) ==> plCalls == 1 && result1 == plErr && result0 == plURL
 //@   ensures [C15:at-most-one-callback] refFnCalls <= 1
 //@   ensures [C15:callback-error-identity] refFnCalls == 1 && refFnErr != nil ==> result1 == refFnErr
 //@
